@@ -99,6 +99,9 @@ fn gh_line(r: &mut Rng, h: &str, page: &str) -> String {
         let d = if r.chance(1, 2) { ph.to_string() } else { label_cut(r, ph) };
         if d.is_empty() || !d.is_ascii() { h.to_string() } else { d }
     };
+    // a tag on the exception: the engine of every case enables exactly the tag "on"
+    let kw_tagged = if r.chance(1, 5) { format!("{},tag={}", kw, r.pick(&["on", "off", "On"])) } else { kw.to_string() };
+    let kw: &str = &kw_tagged;
     match r.below(12) {
         0..=4 => format!("@@||{}^${}", h, kw),
         5 => format!("@@||{}^${},{}", h, kw, r.pick(&["1p", "first-party", "~third-party", "~3p"])),
@@ -134,6 +137,9 @@ fn gh_applies(l: &str, host: &str) -> Option<bool> {
     for o in opts {
         match o {
             "generichide" | "ghide" => {}
+            // a tagged rule is active iff its tag is enabled; run_case enables "on" only
+            "tag=on" => {}
+            "tag=off" | "tag=On" => ok = false,
             "1p" | "first-party" | "~third-party" | "~3p" => {}
             // the page is never a third party to itself
             "3p" | "third-party" | "~first-party" | "~1p" => ok = false,
@@ -802,6 +808,7 @@ fn run_case(lines: &[String], perms: &[u8], url: &str) -> Option<Run> {
     }
     let mut engine = Engine::from_filter_set(set, true);
     engine.use_resources(resources());
+    engine.use_tags(&["on"]);
     let res = engine.url_cosmetic_resources(url);
     let d = dump_cosmetic(&engine);
 
